@@ -4,6 +4,8 @@ import (
 	"fmt"
 	"math"
 	"math/big"
+	"regexp"
+	"strconv"
 	"strings"
 	"time"
 
@@ -210,8 +212,12 @@ func renderInstant(r *Rng) (string, bool) {
 	year := []int{0, 1, 1969, 1970, 2020, 2262, 2263, 9999, r.Intn(10000)}[r.Intn(9)]
 	month := r.Range(1, 12)
 	day := r.Range(1, 28)
-	if r.P(0.2) {
+	if r.P(0.25) {
 		day = r.Range(29, 31)
+		if r.P(0.5) { // the end of February, leap and non-leap years, centuries
+			month = 2
+			year = []int{0, 4, 100, 400, 1900, 2000, 2019, 2020, 2100, 2400, 9996, r.Intn(10000)}[r.Intn(12)]
+		}
 	}
 	h, mi, s := r.Intn(24), r.Intn(60), r.Intn(60)
 	if r.P(0.05) {
@@ -272,6 +278,9 @@ func renderInstant(r *Rng) (string, bool) {
 		case 4: // out-of-range field
 			b = []byte(strings.Replace(str, fmt.Sprintf("-%02d-", month), fmt.Sprintf("-%02d-", []int{0, 13, 99}[r.Intn(3)]), 1))
 		}
+		if r.P(0.3) { // a complete timestamp followed by something
+			b = []byte(str + []string{"junk", " ", "\n", "Z", "z", "+01:00", "-00:00", "é", "\x00x", "\x00", "0", ".5", "Z+01:00", "\u00a0"}[r.Intn(14)])
+		}
 		str = string(b)
 	}
 	return str, valid
@@ -310,7 +319,44 @@ func genTimeCase(r *Rng) *microCase {
 		ns.Add(ns, big.NewInt(int64(t.Nanosecond())))
 		impl = L(AZbig(ns))
 	}
-	return &microCase{wire: L(A(5), v.Wire()), impl: impl, nontrivial: ok, class: class, desc: map[string]interface{}{"kind": "ValueToTimestamp", "value": v.Text()}}
+	desc := map[string]interface{}{"kind": "ValueToTimestamp", "value": v.Text()}
+	if v.K == 's' {
+		// independent oracles for strings: the grammar written as a regular expression plus field ranges, and time.Parse
+		spec := specTimestamp(v.S)
+		if spec != ok {
+			desc["predicate_failed"] = fmt.Sprintf("ValueToTimestamp(%q) accepted=%v, but the string is a timestamp by the RFC 3339 grammar (with the library's documented deviations)=%v", v.S, ok, spec)
+		} else if st, err := time.Parse(time.RFC3339Nano, v.S); err == nil && ok && !st.Equal(t) {
+			desc["predicate_failed"] = fmt.Sprintf("ValueToTimestamp(%q) = %v, time.Parse gives %v", v.S, t.UTC(), st.UTC())
+		}
+	}
+	return &microCase{wire: L(A(5), v.Wire()), impl: impl, nontrivial: ok, class: class, desc: desc}
+}
+
+var tsRe = regexp.MustCompile(`^(\d{4})-(\d{2})-(\d{2})[Tt](\d{1,2}):(\d{2}):(\d{2})(\.\d{1,9})?([Zz]|[+-](\d{2}):(\d{2}))$`)
+
+// specTimestamp: is s an RFC 3339 timestamp, allowing what the library documents as deviations (1-digit hour, offset
+// hours up to 99) and a leap second? Written from the grammar, not from the scanner.
+func specTimestamp(s string) bool {
+	m := tsRe.FindStringSubmatch(s)
+	if m == nil {
+		return false
+	}
+	n := func(x string) int { v, _ := strconv.Atoi(x); return v }
+	y, mo, d, h, mi, sec := n(m[1]), n(m[2]), n(m[3]), n(m[4]), n(m[5]), n(m[6])
+	if mo < 1 || mo > 12 || d < 1 || h > 23 || mi > 59 || sec > 60 {
+		return false
+	}
+	dim := []int{31, 28, 31, 30, 31, 30, 31, 31, 30, 31, 30, 31}[mo-1]
+	if mo == 2 && (y%4 == 0 && y%100 != 0 || y%400 == 0) {
+		dim = 29
+	}
+	if d > dim {
+		return false
+	}
+	if m[9] != "" && n(m[10]) > 59 {
+		return false
+	}
+	return true
 }
 
 var _ = time.Now
@@ -387,8 +433,8 @@ func cmdMicro(prop string, n int, seed uint64, driver, out string) (*Result, err
 			}
 			ms = L(S(ix(decodeOut(mt.L[0]))), S(ix(decodeOut(mt.L[1])))).String()
 		}
-		if mc.class == "monotone" {
-			// the implementation-side predicate was evaluated by the generator; impl carries both outcomes
+		{
+			// the implementation-side predicate was evaluated by the generator
 			if pf, _ := mc.desc.(map[string]interface{})["predicate_failed"].(string); pf != "" {
 				res.Violations = append(res.Violations, Disagreement{Index: i, What: pf, Go: is, Model: ms, Case: mc.desc, WireLine: lines[i], Predicate: pf})
 			}
